@@ -81,7 +81,7 @@ def merge(outs, key):
     return h
 
 
-def kv_check(ctx, module, theorems, relevant, what, assumptions, procs=None, cases=None, oracle=None, pre_finish=None):
+def kv_check(ctx, module, theorems, relevant, what, assumptions, procs=None, cases=None, oracle=None, pre_finish=None, tiers=False):
     """generic flow for the kv-based properties.
     relevant(op_line) -> bool : which differing lines are this property's business
     oracle(op_line, impl_line, model_line) -> str|None : property failure visible on the implementation alone"""
@@ -176,6 +176,49 @@ def kv_check(ctx, module, theorems, relevant, what, assumptions, procs=None, cas
         "read_tier_histogram": merge(outs, "read_tiers"), "cases_with_difference": diffs, "corpus_cases": corpus_n,
         "traces_validated_against_impl": ncases,
     })
+    if tiers:
+        tier_stage(ctx, outs, cov)
     if pre_finish:
         pre_finish(ctx, cov)
     return finish(ctx, "proof", cov, assumptions)
+
+
+def tier_stage(ctx, outs, cov):
+    """the tier automaton Feox.Kv.Tiers as a monitor: after every call the harness reports, per key, where
+    the current generation's bytes are (resident / device / cache entry of that generation); consecutive
+    observations must be connected by the model's tier moves, and all copies of a generation must agree"""
+    n = bad = copies = 0
+    for o in outs:
+        if "crash" in o:
+            continue
+        p = os.path.join(o["dir"], "kv.tiers.ops")
+        if not os.path.exists(p):
+            continue
+        rc, err = run_driver(p, os.path.join(o["dir"], "kv.tiers.model"))
+        ops, mo = read_lines(p), read_lines(os.path.join(o["dir"], "kv.tiers.model"))
+        if rc != 0 or len(ops) != len(mo):
+            violation(ctx, "tier monitor: driver failed on the observation stream", "%s\n" % err[-500:], no_input=True, tag="tiers")
+            continue
+        at = None
+        for a, b in zip(ops, mo):
+            if a.startswith("tier at "):
+                at = a.split(" ")[2:4]
+                continue
+            n += 1
+            if b != "ok":
+                bad += 1
+                if bad <= 2:
+                    case_ops = []
+                    cs = split_cases(o["ops"], o["impl"], o["model"])
+                    if at and int(at[0]) - 1 < len(cs):
+                        case_ops = cs[int(at[0]) - 1]["ops"][:int(at[1]) + 1]
+                    violation(ctx, "a value moved between storage tiers in a way the tier model cannot: observation `%s` after call %s of case %s is %s" % (a, at[1] if at else "?", at[0] if at else "?", b),
+                              "".join(l + "\n" for l in case_ops) + "# observation (key index, generation, resident, on device, cached): %s\n# Feox.Kv.Tiers verdict: %s\n" % (a, b), tag="tiers")
+        for l in read_lines(os.path.join(o["dir"], "kv.tiers.fail")):
+            copies += 1
+            if copies <= 2:
+                violation(ctx, "two copies of one generation differ: " + l, "# %s\n# re-run: harness/target/release/kv --seed %d --tier %s cases=...\n" % (l, ctx.seed * 1000 + outs.index(o), ctx.tier), tag="tiers")
+    ctx.log("tier monitor: %d observations, %d unreachable, %d disagreeing copies" % (n, bad, copies))
+    cov["tier_observations"] = n
+    cov["tier_unreachable"] = bad
+    cov["tier_copy_disagreements"] = copies
